@@ -271,7 +271,12 @@ def predFut (x : MonCtx) (m : PredSt) (e : Ev) : PredSt × List Note :=
            if cleanRun && !c.sequential && decide (m.realInflight.length < l+1) then
              [.prop "C10" (wh ++ s!" idle below limit {l+1} with a ready function unstarted")
                (allBlockedB c m.realInvoked m.realEndedOk)] else []
-         | _ => []))
+         | some 0 =>
+           -- C10: "0 and None mean unbounded"
+           if cleanRun && !c.sequential then
+             [.prop "C10" (wh ++ " limit 0 means unbounded, yet a ready function is unstarted")
+               (allBlockedB c m.realInvoked m.realEndedOk)] else []
+         | none => []))
   | .retErr f =>
     (m1, [.prop "C04" (wh ++ " inflight-at-return") m.realInflight.isEmpty,
           -- C07: try_fold returns the first error and invokes nothing after it
